@@ -13,7 +13,14 @@ Keys only the harness reads (the driver ignores them):
   "history": [case, …]          : calls made BEFORE this one on the SAME `BatteryDistributionAlgorithm` instance (the
                                   `BatteryManager` keeps one); the case's outputs are those of the last call;
   "adjust_power": bool          : flag of the `Request` handed to the real `BatteryManager` (default true);
-  "fail_ids": [inverter id]     : inverters whose `set_power` call fails.
+  "fail_ids": [inverter id]     : inverters whose `set_power` call fails;
+  "fail_kinds": {id: kind}      : how it fails: "out_of_range" (OperationOutOfRange), "api_error" (another ApiClientError),
+                                  "unknown" (any other exception), "timeout" (no answer within the request timeout);
+  "manager_sequence": [case, …] : (replay files of C02) requests made one after the other through ONE real `BatteryManager`
+                                  reading latest-value caches; a component whose data is unchanged keeps its message object.
+Float runs: every case is also run on IEEE doubles; the oracle clauses are applied to the float outputs as well (same
+tolerance), also where the float run takes another branch than the exact one (`float_only` violations).  `gen_float_residue`
+produces the shapes where that happens (exponents 4–8: ratio residues above the 1e-9 tolerance of `is_close_to_zero`).
 """
 from __future__ import annotations
 
@@ -454,9 +461,24 @@ def manager_report(case: dict, rem: Fraction) -> dict:
     return {"succeeded": rat(p - rem - f), "failed": rat(f), "excess": rat(rem)}
 
 
-def run_manager(case: dict, dist: dict[int, float], rem: float, fail_ids: set[int], adjust_power: bool = True) -> dict:
-    """Drive the REAL `BatteryManager._distribute_power` with a fake API client; returns the reported
-    succeeded/failed/excess powers and the `set_power` calls received by the client (floats)."""
+def _api_failure(kind: str) -> BaseException:
+    """The exception a scripted `set_power` outcome raises (the kinds `_parse_result` tells apart)."""
+    import grpc.aio
+    from frequenz.client.microgrid import ApiClientError, OperationOutOfRange
+
+    if kind == "out_of_range":  # the component is fine, it only rejected this value
+        return OperationOutOfRange(server_url="grpc://fake", operation="set_power", grpc_error=mock.MagicMock(spec=grpc.aio.AioRpcError))
+    if kind == "api_error":
+        return ApiClientError(server_url="grpc://fake", operation="set_power", description="scripted", retryable=False)
+    return RuntimeError("scripted failure")
+
+
+def run_manager(case: dict, dist: dict[int, float], rem: float, fail_ids: set[int], adjust_power: bool = True,
+                fail_kinds: dict[int, str] | None = None) -> dict:
+    """Drive the REAL `BatteryManager._distribute_power` with a fake API client whose `set_power` outcomes are scripted per
+    inverter (accepted / OperationOutOfRange / another ApiClientError / an unknown exception / no answer within the
+    timeout); returns the reported succeeded/failed/excess powers and the `set_power` calls received by the client (floats)."""
+    fail_kinds = fail_kinds or {}
     from frequenz.quantities import Power
     from frequenz.sdk.microgrid import connection_manager
     from frequenz.sdk.microgrid._power_distributing._component_managers._battery_manager import BatteryManager
@@ -470,7 +492,10 @@ def run_manager(case: dict, dist: dict[int, float], rem: float, fail_ids: set[in
         async def set_power(self, inverter_id: int, power: float) -> None:
             calls.append((inverter_id, power))
             if inverter_id in fail_ids:
-                raise RuntimeError("scripted failure")  # `_parse_result` counts every exception as failed
+                kind = fail_kinds.get(inverter_id, "unknown")
+                if kind == "timeout":
+                    await asyncio.sleep(3600)
+                raise _api_failure(kind)  # `_parse_result` counts every exception (and a cancelled task) as failed
 
     class _Conn:
         api_client = _Api()
@@ -489,7 +514,7 @@ def run_manager(case: dict, dist: dict[int, float], rem: float, fail_ids: set[in
             inv_bats[i["id"]] = bids
     mgr._inv_bats_map = inv_bats  # type: ignore[attr-defined]
     mgr._component_pool_status_tracker = _Tracker()  # type: ignore[attr-defined]
-    mgr._api_power_request_timeout = timedelta(seconds=5)  # type: ignore[attr-defined]
+    mgr._api_power_request_timeout = timedelta(seconds=0.02 if "timeout" in fail_kinds.values() else 5)  # type: ignore[attr-defined]
     req = Request(power=Power.from_watts(float(F(case["power"]))), component_ids=frozenset(bat_ids),
                   adjust_power=adjust_power)
     result = DistributionResult(distribution=dict(dist), remaining_power=rem)
@@ -505,6 +530,184 @@ def run_manager(case: dict, dist: dict[int, float], rem: float, fail_ids: set[in
         out["excess"] = res.excess_power.as_watts()
         out["failed"] = res.failed_power.as_watts() if isinstance(res, PartialFailure) else 0.0
     return out
+
+
+# --------------------------------------------------------------------------- several requests through ONE BatteryManager
+def _bare_manager(groups: list[dict], exp: int, caches: dict, sent: list) -> Any:
+    """A real `BatteryManager` without a microgrid: `__init__` is replaced by its plain attribute initialisations (every
+    `self.<attr> = <literal / empty container>` of the CURRENT source, so an attribute a change adds exists), the component
+    maps of `groups`, latest-value caches that hand out the message objects in `caches`, a status tracker for which every
+    battery works, the real distribution algorithm and a results sender that records."""
+    import ast as _ast
+    import inspect
+    import textwrap
+    from frequenz.sdk.microgrid._power_distributing._component_managers._battery_manager import BatteryManager
+    from frequenz.sdk.microgrid._power_distributing._distribution_algorithm import BatteryDistributionAlgorithm
+
+    mgr = BatteryManager.__new__(BatteryManager)
+    try:
+        init = _ast.parse(textwrap.dedent(inspect.getsource(BatteryManager.__init__))).body[0]
+        for st in _ast.walk(init):
+            tgt = st.targets[0] if isinstance(st, _ast.Assign) and len(st.targets) == 1 else (
+                st.target if isinstance(st, _ast.AnnAssign) and st.value is not None else None)
+            if isinstance(tgt, _ast.Attribute) and isinstance(tgt.value, _ast.Name) and tgt.value.id == "self":
+                v = st.value
+                try:
+                    val = _ast.literal_eval(v)
+                except (ValueError, SyntaxError):
+                    if isinstance(v, _ast.Call) and isinstance(v.func, _ast.Name) and v.func.id in ("set", "dict", "list") and not v.args:
+                        val = {"set": set, "dict": dict, "list": list}[v.func.id]()
+                    else:
+                        continue
+                setattr(mgr, tgt.attr, val)
+    except (OSError, TypeError, IndexError):
+        pass
+
+    class _Cache:
+        def __init__(self, key: tuple) -> None:
+            self.key = key
+
+        def has_value(self) -> bool:
+            return self.key in caches
+
+        def get(self) -> Any:
+            return caches[self.key]
+
+    class _Tracker:
+        def get_working_components(self, ids: Any) -> set[int]:
+            return set(ids)
+
+        async def update_status(self, ok: set[int], bad: set[int]) -> None:
+            return None
+
+    class _Sender:
+        async def send(self, result: Any) -> None:
+            sent.append(result)
+
+    bat_invs: dict[int, frozenset[int]] = {}
+    inv_bats: dict[int, frozenset[int]] = {}
+    bat_bats: dict[int, frozenset[int]] = {}
+    inv_invs: dict[int, frozenset[int]] = {}
+    for g in groups:
+        bids = frozenset(b["id"] for b in g["bats"])
+        iids = frozenset(i["id"] for i in g["invs"])
+        for b in bids:
+            bat_invs[b], bat_bats[b] = iids, bids
+        for i in iids:
+            inv_bats[i], inv_invs[i] = bids, iids
+    mgr._battery_ids = set(bat_bats)  # type: ignore[attr-defined]
+    mgr._bat_invs_map, mgr._inv_bats_map = bat_invs, inv_bats  # type: ignore[attr-defined]
+    mgr._bat_bats_map, mgr._inv_invs_map = bat_bats, inv_invs  # type: ignore[attr-defined]
+    mgr._battery_caches = {b: _Cache(("b", b)) for b in bat_bats}  # type: ignore[attr-defined]
+    mgr._inverter_caches = {i: _Cache(("i", i)) for i in inv_bats}  # type: ignore[attr-defined]
+    mgr._component_pool_status_tracker = _Tracker()  # type: ignore[attr-defined]
+    mgr._distribution_algorithm = BatteryDistributionAlgorithm(exp)  # type: ignore[attr-defined]
+    mgr._results_sender = _Sender()  # type: ignore[attr-defined]
+    mgr._api_power_request_timeout = timedelta(seconds=5)  # type: ignore[attr-defined]
+    return mgr
+
+
+def run_manager_sequence(steps: list[dict]) -> list[dict]:
+    """Every step's request through (a) ONE long-lived real `BatteryManager` and (b) a fresh one, both reading the LATEST
+    messages.  A component whose data did not change since the previous step keeps the very same message object (no new
+    message arrived); a changed one gets a new object.  Returns per step {"kind", "calls", "excess"} of both."""
+    from frequenz.quantities import Power
+    from frequenz.sdk.microgrid import connection_manager
+    from frequenz.sdk.microgrid._power_distributing.request import Request
+    from frequenz.sdk.microgrid._power_distributing.result import PartialFailure, Success
+    from tests.utils.component_data_wrapper import BatteryDataWrapper, InverterDataWrapper
+
+    fl = lambda v: float(Fraction(v))  # noqa: E731
+    caches: dict[tuple, Any] = {}
+    prints: dict[tuple, tuple] = {}
+    calls: list[tuple[int, float]] = []
+
+    class _Api:
+        async def set_power(self, inverter_id: int, power: float) -> None:
+            calls.append((inverter_id, power))
+
+    class _Conn:
+        api_client = _Api()
+
+    def publish(step: dict, k: int) -> dict[str, list[int]]:
+        fresh: dict[str, list[int]] = {"bats": [], "invs": []}
+        for g in step["groups"]:
+            for b in g["bats"]:
+                fp = tuple(b[x] for x in ("cap", "soc", "soc_lo", "soc_hi", "il", "el", "eu", "iu"))
+                if prints.get(("b", b["id"])) != fp:
+                    prints[("b", b["id"])] = fp
+                    fresh["bats"].append(b["id"])
+                    caches[("b", b["id"])] = BatteryDataWrapper(
+                        component_id=b["id"], timestamp=TS + timedelta(seconds=k), capacity=fl(b["cap"]), soc=fl(b["soc"]),
+                        soc_lower_bound=fl(b["soc_lo"]), soc_upper_bound=fl(b["soc_hi"]),
+                        power_inclusion_lower_bound=fl(b["il"]), power_exclusion_lower_bound=fl(b["el"]),
+                        power_exclusion_upper_bound=fl(b["eu"]), power_inclusion_upper_bound=fl(b["iu"]))
+            for i in g["invs"]:
+                fp = tuple(i[x] for x in ("il", "el", "eu", "iu"))
+                if prints.get(("i", i["id"])) != fp:
+                    prints[("i", i["id"])] = fp
+                    fresh["invs"].append(i["id"])
+                    caches[("i", i["id"])] = InverterDataWrapper(
+                        component_id=i["id"], timestamp=TS + timedelta(seconds=k),
+                        active_power_inclusion_lower_bound=fl(i["il"]), active_power_exclusion_lower_bound=fl(i["el"]),
+                        active_power_exclusion_upper_bound=fl(i["eu"]), active_power_inclusion_upper_bound=fl(i["iu"]))
+        return fresh
+
+    async def one(mgr: Any, sent: list, step: dict) -> dict:
+        calls.clear()
+        sent.clear()
+        bat_ids = frozenset(b["id"] for g in step["groups"] for b in g["bats"])
+        req = Request(power=Power.from_watts(fl(step["power"])), component_ids=bat_ids, adjust_power=True)
+        await mgr.distribute_power(req)
+        res = sent[-1] if sent else None
+        out: dict = {"kind": type(res).__name__, "calls": sorted(calls)}
+        if isinstance(res, (Success, PartialFailure)):
+            out["excess"] = res.excess_power.as_watts()
+        return out
+
+    async def go() -> list[dict]:
+        outs = []
+        sent_long: list = []
+        long_lived = _bare_manager(steps[0]["groups"], int(steps[0]["exp"]), caches, sent_long)
+        with mock.patch.object(connection_manager, "get", return_value=_Conn()):
+            for k, step in enumerate(steps):
+                fresh_ids = publish(step, k)
+                a = await one(long_lived, sent_long, step)
+                sent_new: list = []
+                b = await one(_bare_manager(step["groups"], int(step["exp"]), caches, sent_new), sent_new, step)
+                outs.append({"long_lived": a, "fresh": b, "new_messages": fresh_ids})
+        return outs
+
+    return asyncio.run(go())
+
+
+def process_manager_sequence(ctx: Any, prop: str, steps: list[dict]) -> None:
+    """C02 per request of a sequence through one manager, against the LATEST component data: the set-points the long-lived
+    manager commands satisfy the clauses for the data of that step, and are the ones a fresh manager commands."""
+    plain = [_strip_history(s) for s in steps]
+    try:
+        outs = run_manager_sequence(plain)
+    except Exception as e:  # noqa: BLE001  (a manager that crashes on a sequence is reported with the sequence)
+        ctx.violation(f"{prop}.manager-sequence-crash", {"manager_sequence": plain}, {"error": f"{type(e).__name__}: {e}"[:300]}, regime=None)
+        return
+    for k, (step, o) in enumerate(zip(plain, outs)):
+        a, b = o["long_lived"], o["fresh"]
+        nm = o["new_messages"]
+        mode = "none" if not nm["bats"] and not nm["invs"] else ("inverter-only" if not nm["bats"] else (
+            "battery-only" if not nm["invs"] else "both"))
+        tags = [f"mgrseq:step{min(k, 3)}", f"mgrseq:new-{mode}", "mgrseq:" + a["kind"]]
+        where = {"manager_sequence": plain[:k + 1], "step": k}
+        if a != b:
+            ctx.violation(f"{prop}.manager-latest-data", where,
+                          {"note": "the long-lived manager does not command what a fresh manager commands for the latest data",
+                           "new_messages": nm, "long_lived": a, "fresh": b}, regime=None)
+        elif "excess" in a and consistent(step) and admitted(step) and set(i for i, _ in a["calls"]) == {
+                i["id"] for g in step["groups"] for i in g["invs"]}:
+            flags = flags_canonical(regimes(step))
+            obs = {"dist": {str(i): rat(v) for i, v in a["calls"]}, "rem": rat(a["excess"])}
+            for clause, observed in oracle(step, obs, prop):
+                ctx.violation(f"{prop}.{clause}", where, {"manager_commands": obs, **observed}, regime=regime_of(clause, flags))
+        ctx.case(where if k else step, tags=tags, nontrivial=k > 0 and mode != "none")
 
 
 # --------------------------------------------------------------------------- the oracle (literal property clauses)
@@ -830,6 +1033,38 @@ def gen_isclose(rng: random.Random) -> dict:
     return case
 
 
+def gen_float_residue(rng: random.Random) -> dict:
+    """Shapes where IEEE doubles and exact rationals can take different branches: a large distribution exponent (4–8)
+    makes the availability ratios huge, so `sum_ratio - used_ratio` ends at a rounding residue far above the 1e-9 absolute
+    tolerance of `is_close_to_zero` instead of at 0.  Several single-inverter pairs of uneven SoC (non-dyadic decimals) and
+    capacity, no exclusion bounds, one battery exactly at the SoC limit of the request's side (it is sorted last), and a
+    request above what the pairs with headroom can take but within the advertised inclusion bounds."""
+    n = rng.randint(4, 12)
+    ids = list(range(1, 60))
+    rng.shuffle(ids)
+    supply = rng.random() < 0.4
+    soc_lo, soc_hi = Fraction(rng.choice([0, 10, 20])), Fraction(rng.choice([80, 90, 100]))
+    incl = Fraction(rng.choice([500, 1000, 1000, 2500]))
+    full = set(rng.sample(range(n), rng.choice([1, 1, 1, 2])))
+    groups = []
+    for k in range(n):
+        if k in full:
+            soc = soc_lo if supply else soc_hi
+        else:
+            soc = Fraction(rng.randint(int(soc_lo) * 10 + 1, int(soc_hi) * 10 - 1), 10)
+        cap = Fraction(rng.choice([5000, 7500, 10000, 10000, 12000, 20000]))
+        bi = incl * rng.choice([1, 1, 2])
+        groups.append({"bats": [{"id": ids.pop(), "cap": rat(cap), "soc": rat(soc), "soc_lo": rat(soc_lo), "soc_hi": rat(soc_hi),
+                                 "il": rat(-bi), "el": "0", "eu": "0", "iu": rat(bi)}],
+                       "invs": [{"id": ids.pop(), "il": rat(-incl), "el": "0", "eu": "0", "iu": rat(incl)}]})
+    room = incl * (n - len(full))
+    total = incl * n
+    p = rng.choice([room + incl * Fraction(9, 10), room + 1, total, room + incl / 2, room, room - incl / 3])
+    case = {"power": rat(-p if supply else p), "exp": rng.choice([4, 4, 5, 6, 8]), "failed": None, "groups": groups}
+    finish_case(case)
+    return case
+
+
 def gen_malformed(rng: random.Random) -> dict:
     """Inputs outside the quantifier's domain: only model = code is required."""
     case = gen_case(rng)
@@ -1010,12 +1245,13 @@ def process(ctx: Any, prop: str, case: dict, mgr_probe: bool, domain_probe: bool
     if in_domain:
         for clause, observed in oracle(case, out, prop):
             ctx.violation(f"{prop}.{clause}", case, {"impl": out, **observed}, regime=regime_of(clause, flags))
-        if gap <= Fraction(1, 10**6):
-            # the float outputs are what the hardware receives: same clauses, same tolerance
-            flr = {"dist": {k: rat(v) for k, v in fl["dist"].items()}, "rem": rat(fl["rem"])}
-            for clause, observed in oracle(case, flr, prop):
-                if not any(v["case"] is case and v["clause"] == f"{prop}.{clause}" for v in ctx.violations[-8:]):
-                    ctx.violation(f"{prop}.{clause}", case, {"impl_float": flr, **observed}, regime=regime_of(clause, flags))
+        # the float outputs are what the hardware receives: same clauses, same tolerance — also where the float run takes
+        # another branch than the exact one (`float-divergent`): a violation that exists in IEEE doubles only is a violation
+        flr = {"dist": {k: rat(v) for k, v in fl["dist"].items()}, "rem": rat(fl["rem"])}
+        for clause, observed in oracle(case, flr, prop):
+            if not any(v["case"] is case and v["clause"] == f"{prop}.{clause}" for v in ctx.violations[-8:]):
+                ctx.violation(f"{prop}.{clause}", case, {"impl_float": flr, "float_only": gap > Fraction(1, 10**6), **observed},
+                              regime=regime_of(clause, flags))
     # the domain predicates against the REAL PowerBoundsCalculator / _check_request (floats)
     if domain_probe and cons:
         rp = real_domain_probe(case)
@@ -1040,7 +1276,12 @@ def process(ctx: Any, prop: str, case: dict, mgr_probe: bool, domain_probe: bool
         if not adjust and not real_check_request(case, False):
             adjust = True
             tags.append("manager:no-adjust-rejected")
-        r = run_manager(case, {int(k): v for k, v in fl["dist"].items()}, fl["rem"], fail_ids, adjust)
+        r = run_manager(case, {int(k): v for k, v in fl["dist"].items()}, fl["rem"], fail_ids, adjust,
+                        {int(k): v for k, v in (case.get("fail_kinds") or {}).items()})
+        for kind in sorted(set((case.get("fail_kinds") or {}).values())):
+            tags.append("manager:api-" + kind)
+        if len(fail_ids) == 1:
+            tags.append("manager:one-inverter-rejected")
         tol = float(scale) * 1e-6
         commanded_ok = sum(w for i, w in r["calls"] if i not in fail_ids)
         commanded_all = sum(w for _, w in r["calls"])
@@ -1078,7 +1319,14 @@ def prepare_failed(case: dict, rng: random.Random) -> None:
     out = run_impl(case, exact=True)
     if "error" in out:
         return
+    if rng.random() < 0.4:
+        fail = [rng.choice(fail)]  # exactly one inverter is rejected, every other set-point is accepted
     case["fail_ids"] = fail
+    # how the API refuses: the manager must account for the refused set-point whatever the reason
+    case["fail_kinds"] = {str(i): rng.choice(["out_of_range", "out_of_range", "api_error", "unknown", "timeout"] if rng.random() < 0.9
+                                             else ["timeout"]) for i in fail}
+    if len(fail) == 1 and rng.random() < 0.5:
+        case["fail_kinds"] = {str(fail[0]): "out_of_range"}
     case["failed"] = rat(sum(F(out["dist"][str(i)]) for i in fail))
 
 
@@ -1096,7 +1344,8 @@ def run_property(ctx: Any, prop: str) -> None:
     for i in range(n):
         rng = ctx.subrng("case", i)
         r = rng.random()
-        case = gen_malformed(rng) if r < 0.12 else (gen_isclose(rng) if r < 0.14 else gen_case(rng))
+        case = gen_malformed(rng) if r < 0.12 else (gen_isclose(rng) if r < 0.14 else (
+            gen_float_residue(rng) if r < 0.19 else gen_case(rng)))
         probe = prop == "C01" and i % 8 == 0
         if probe and rng.random() < 0.5:
             prepare_failed(case, rng)
@@ -1112,6 +1361,10 @@ def run_property(ctx: Any, prop: str) -> None:
                 continue  # the first call of a sequence is an ordinary case (covered above)
             cases.append(case)
             outs.append(process(ctx, prop, case, mgr_probe=False, seq=True))
+    if prop == "C02":
+        # several requests through ONE real BatteryManager, the component data changing in between
+        for i in range(ctx.budget(quick=60, thorough=800)):
+            process_manager_sequence(ctx, prop, gen_sequence(ctx.subrng("manager-sequence", i)))
     if ctx.tier == "thorough":
         for c in exhaustive_small():
             finish_case(c)
@@ -1125,6 +1378,9 @@ def replay_property(ctx: Any, prop: str, data: dict) -> None:
 
     python_flags()
     case = data.get("case")
+    if case and "manager_sequence" in case:
+        process_manager_sequence(ctx, prop, case["manager_sequence"])
+        return None
     if not case or "groups" not in case:
         return run_property(ctx, prop)
     out = process(ctx, prop, case, mgr_probe=prop == "C01", domain_probe=True)
